@@ -60,13 +60,14 @@ theorem find_nodup (ns : List Nbr) (hn : (ns.map Nbr.name).Nodup) (n : Nbr) (hm 
 /-! ### stage (b): parsing all neighbors -/
 
 theorem parseAll_fields (ns : List Nbr) (w : World) :
-    (parseAll w ns).nbrs = w.nbrs ∧ (parseAll w ns).peers = w.peers ∧ (parseAll w ns).procs = w.procs := by
+    (parseAll w ns).nbrs = w.nbrs ∧ (parseAll w ns).peers = w.peers ∧ (parseAll w ns).procs = w.procs ∧
+    (parseAll w ns).pending = w.pending := by
   induction ns generalizing w with
-  | nil => exact ⟨rfl, rfl, rfl⟩
+  | nil => exact ⟨rfl, rfl, rfl, rfl⟩
   | cons x t ih =>
     simp only [parseAll, List.foldl_cons] at ih ⊢
-    obtain ⟨h1, h2, h3⟩ := ih (parseNbr w x)
-    exact ⟨h1, h2, h3⟩
+    obtain ⟨h1, h2, h3, h4⟩ := ih (parseNbr w x)
+    exact ⟨h1, h2, h3, h4⟩
 
 theorem parseAll_ribs (ns : List Nbr) (w : World) (a : Nat) (hn : (ns.map Nbr.name).Nodup) :
     AList.lookup a (parseAll w ns).ribs
@@ -148,8 +149,8 @@ theorem values_names (d : AList Nat Nbr) (h : KeyName d) : (AList.values d).map 
 theorem removePeers_lookup (w : World) (a : Nat) (n : Nbr) (h : AList.lookup a w.nbrs = some n) :
     AList.lookup a (removePeers w).peers = AList.lookup a w.peers ∧
     AList.lookup a (removePeers w).ribs = AList.lookup a w.ribs ∧
-    (removePeers w).nbrs = w.nbrs ∧ (removePeers w).procs = w.procs := by
-  refine ⟨?_, ?_, rfl, rfl⟩
+    (removePeers w).nbrs = w.nbrs ∧ (removePeers w).procs = w.procs ∧ (removePeers w).pending = w.pending := by
+  refine ⟨?_, ?_, rfl, rfl, rfl⟩
   · simp only [removePeers]
     rw [lookup_filter_key (fun k => (AList.lookup k w.nbrs).isSome)]
     simp [h]
@@ -164,7 +165,8 @@ theorem removePeers_lookup (w : World) (a : Nat) (n : Nbr) (h : AList.lookup a w
     rw [this]; rfl
 
 theorem decideOne_fields (prevs : AList Nat Nbr) (w : World) (n : Nbr) :
-    (decideOne prevs w n).nbrs = w.nbrs ∧ (decideOne prevs w n).procs = w.procs := ⟨rfl, rfl⟩
+    (decideOne prevs w n).nbrs = w.nbrs ∧ (decideOne prevs w n).procs = w.procs ∧
+    (decideOne prevs w n).pending = w.pending := ⟨rfl, rfl, rfl⟩
 
 theorem decideOne_other (prevs : AList Nat Nbr) (w : World) (n : Nbr) (a : Nat) (h : n.name ≠ a) :
     AList.lookup a (decideOne prevs w n).peers = AList.lookup a w.peers ∧
@@ -189,9 +191,10 @@ theorem decideOne_self (prevs : AList Nat Nbr) (w : World) (n : Nbr) :
   split <;> simp_all
 
 theorem decideFold_fields (prevs : AList Nat Nbr) (l : List Nbr) (w : World) :
-    (l.foldl (decideOne prevs) w).nbrs = w.nbrs ∧ (l.foldl (decideOne prevs) w).procs = w.procs := by
+    (l.foldl (decideOne prevs) w).nbrs = w.nbrs ∧ (l.foldl (decideOne prevs) w).procs = w.procs ∧
+    (l.foldl (decideOne prevs) w).pending = w.pending := by
   induction l generalizing w with
-  | nil => exact ⟨rfl, rfl⟩
+  | nil => exact ⟨rfl, rfl, rfl⟩
   | cons x t ih => simp only [List.foldl_cons]; exact ih (decideOne prevs w x)
 
 theorem decideFold (prevs : AList Nat Nbr) (l : List Nbr) (w : World) (a : Nat) (hn : (l.map Nbr.name).Nodup) :
@@ -217,7 +220,30 @@ theorem decideFold (prevs : AList Nat Nbr) (l : List Nbr) (w : World) (a : Nat) 
 
 /-! ### `Reactor.reload()` on a valid configuration, seen from one neighbor name -/
 
-theorem reactorReload_ok (w : World) (c : Config)
+/-- The world `Configuration.reload()` leaves when the file is valid and `_attach` was empty. -/
+def committed (w : World) (c : Config) : World :=
+  { parseAll { w with procs := [], nbrs := [] } c.nbrs with procs := c.procs, nbrs := toDict c.nbrs }
+
+theorem parseAll_setPending (ns : List Nbr) (u : World) (l : List Nbr) :
+    parseAll { u with pending := l } ns = { parseAll u ns with pending := l } := by
+  induction ns generalizing u with
+  | nil => rfl
+  | cons x t ih =>
+    simp only [parseAll, List.foldl_cons] at ih ⊢
+    exact ih (parseNbr u x)
+
+theorem cfgReload_ok (w : World) (c : Config) (hp : w.pending = []) :
+    cfgReload w c none = (committed w c, true) := by
+  obtain ⟨procs, nbrs, ribs, peers, pending⟩ := w
+  simp only at hp
+  subst hp
+  have key : parseAll ⟨[], [], ribs, peers, c.nbrs⟩ c.nbrs
+      = { parseAll ⟨[], [], ribs, peers, []⟩ c.nbrs with pending := c.nbrs } :=
+    parseAll_setPending c.nbrs ⟨[], [], ribs, peers, []⟩ c.nbrs
+  have q4 : (parseAll ⟨[], [], ribs, peers, []⟩ c.nbrs).pending = [] := (parseAll_fields c.nbrs _).2.2.2
+  simp only [cfgReload, clearStage, parseStage, attachRibs, committed, List.nil_append, key, q4]
+
+theorem reactorReload_ok (w : World) (c : Config) (hp : w.pending = [])
     (hnodup : (c.nbrs.map Nbr.name).Nodup) (n : Nbr) (hn : n ∈ c.nbrs) :
     (reactorReload w c none).2 = true ∧
     (AList.lookup n.name (reactorReload w c none).1.peers, AList.lookup n.name (reactorReload w c none).1.ribs)
@@ -225,10 +251,9 @@ theorem reactorReload_ok (w : World) (c : Config)
     AList.lookup n.name (reactorReload w c none).1.nbrs = some n := by
   -- the world `_clear()` leaves: same RIBs and peers
   let w0 : World := { w with procs := [], nbrs := [] }
-  obtain ⟨_, pf2, _⟩ := parseAll_fields c.nbrs w0
+  obtain ⟨_, pf2, _, _⟩ := parseAll_fields c.nbrs w0
   have hcfg : cfgReload w c none
-      = ({ parseAll w0 c.nbrs with procs := c.procs, nbrs := toDict c.nbrs }, true) := by
-    simp [cfgReload, clearStage, parseStage, w0]
+      = ({ parseAll w0 c.nbrs with procs := c.procs, nbrs := toDict c.nbrs }, true) := cfgReload_ok w c hp
   have hlk : AList.lookup n.name (toDict c.nbrs) = some n := toDict_lookup c.nbrs hnodup n hn
   obtain ⟨wf1, wf2⟩ := toDict_wf c.nbrs
   have hvals : ((AList.values (toDict c.nbrs)).map Nbr.name).Nodup := by
@@ -238,26 +263,101 @@ theorem reactorReload_ok (w : World) (c : Config)
   -- the world after configuration.reload()
   let w1 : World := { parseAll w0 c.nbrs with procs := c.procs, nbrs := toDict c.nbrs }
   have hw1n : AList.lookup n.name w1.nbrs = some n := hlk
-  obtain ⟨r1, r2, r3, _⟩ := removePeers_lookup w1 n.name n hw1n
+  obtain ⟨r1, r2, r3, _, _⟩ := removePeers_lookup w1 n.name n hw1n
   have hres : reactorReload w c none
       = ((AList.values (removePeers w1).nbrs).foldl (decideOne w.nbrs) (removePeers w1), true) := by
     simp only [reactorReload, hcfg, if_true, w1]
   rw [hres]
-  obtain ⟨f1, _⟩ := decideFold_fields w.nbrs (AList.values (removePeers w1).nbrs) (removePeers w1)
+  obtain ⟨f1, _, _⟩ := decideFold_fields w.nbrs (AList.values (removePeers w1).nbrs) (removePeers w1)
   refine ⟨rfl, ?_, ?_⟩
   · simp only
     rw [decideFold w.nbrs _ (removePeers w1) n.name (by rw [r3]; exact hvals)]
     rw [r3, find_nodup _ hvals n hmem]
     simp only
     rw [r1, r2]
-    have hp : AList.lookup n.name w1.peers = AList.lookup n.name w.peers := by
+    have hp' : AList.lookup n.name w1.peers = AList.lookup n.name w.peers := by
       show AList.lookup n.name (parseAll w0 c.nbrs).peers = _
       rw [pf2]
     have hr : AList.lookup n.name w1.ribs = some (parseSess (AList.lookup n.name w.ribs) n) := by
       show AList.lookup n.name (parseAll w0 c.nbrs).ribs = _
       rw [parseAll_ribs c.nbrs w0 n.name hnodup, find_nodup c.nbrs hnodup n hn]
-    rw [hp, hr]
+    rw [hp', hr]
   · simp only; rw [f1, r3]; exact hlk
+
+/-- `_attach` is empty after every reload that got as far as `_clear()` (commit and abort both
+    empty it), and after any reload at all if it was empty before. -/
+theorem reload_pending (w : World) (c : Config) (f : Option Fault)
+    (h : f = some .missingFile → w.pending = []) : (reactorReload w c f).1.pending = [] := by
+  cases f with
+  | none =>
+    simp only [reactorReload, cfgReload, clearStage, parseStage, attachRibs, if_true]
+    rw [(decideFold_fields _ _ _).2.2]
+    rfl
+  | some f =>
+    cases f with
+    | missingFile => simpa [reactorReload, cfgReload] using h rfl
+    | firstLine => simp [reactorReload, cfgReload, clearStage, parseStage, abortStage]
+    | «syntax» k => simp [reactorReload, cfgReload, clearStage, parseStage, abortStage]
+    | «exception» k => simp [reactorReload, cfgReload, clearStage, parseStage, abortStage]
+
+/-- A neighbor that a successful reload removes leaves nothing under its name: no peer, no RIB
+    (`Peer.remove()` → `stop()` → `rib.uncache()`), no configured section. -/
+theorem removed_leaves_nothing (w : World) (c : Config) (hp : w.pending = []) (a : Nat)
+    (hnodup : (c.nbrs.map Nbr.name).Nodup) (ha : a ∉ c.nbrs.map Nbr.name)
+    (hpeer : (AList.lookup a w.peers).isSome = true) :
+    AList.lookup a (reactorReload w c none).1.peers = none ∧
+    AList.lookup a (reactorReload w c none).1.ribs = none ∧
+    AList.lookup a (reactorReload w c none).1.nbrs = none := by
+  let w0 : World := { w with procs := [], nbrs := [] }
+  let w1 : World := { parseAll w0 c.nbrs with procs := c.procs, nbrs := toDict c.nbrs }
+  have hcfg : cfgReload w c none = (w1, true) := cfgReload_ok w c hp
+  obtain ⟨wf1, wf2⟩ := toDict_wf c.nbrs
+  have hvals : ((AList.values (toDict c.nbrs)).map Nbr.name).Nodup := by
+    rw [values_names _ wf2]; exact wf1
+  have hnl : AList.lookup a (toDict c.nbrs) = none := by
+    unfold toDict
+    rw [toDict_aux c.nbrs [] a hnodup, find_none c.nbrs a ha]; rfl
+  have hres : reactorReload w c none
+      = ((AList.values (removePeers w1).nbrs).foldl (decideOne w.nbrs) (removePeers w1), true) := by
+    simp only [reactorReload, hcfg, if_true]
+  have hkeys : a ∉ (AList.values (toDict c.nbrs)).map Nbr.name := by
+    rw [values_names _ wf2]
+    exact AList.lookup_eq_none_iff.1 hnl
+  have hfold := decideFold w.nbrs (AList.values (removePeers w1).nbrs) (removePeers w1) a
+    (by show ((AList.values (toDict c.nbrs)).map Nbr.name).Nodup; exact hvals)
+  rw [show (removePeers w1).nbrs = toDict c.nbrs from rfl, find_none _ a hkeys] at hfold
+  obtain ⟨hf1, hf2⟩ := Prod.mk.inj hfold
+  have hpeers1 : AList.lookup a w1.peers = AList.lookup a w.peers := by
+    show AList.lookup a (parseAll w0 c.nbrs).peers = _
+    rw [(parseAll_fields c.nbrs w0).2.1]
+  have hin : a ∈ AList.keys w1.peers := by
+    cases hl : AList.lookup a w1.peers with
+    | none => rw [hpeers1] at hl; rw [hl] at hpeer; cases hpeer
+    | some p =>
+      have := AList.mem_of_lookup hl
+      exact List.mem_map.2 ⟨(a, p), this, rfl⟩
+  rw [hres]
+  refine ⟨?_, ?_, ?_⟩
+  · show AList.lookup a ((AList.values (removePeers w1).nbrs).foldl (decideOne w.nbrs) (removePeers w1)).peers = none
+    rw [show (removePeers w1).nbrs = toDict c.nbrs from rfl, hf1]
+    simp only [removePeers]
+    rw [lookup_filter_key (fun k => (AList.lookup k w1.nbrs).isSome)]
+    have : AList.lookup a w1.nbrs = none := hnl
+    simp [this]
+  · show AList.lookup a ((AList.values (removePeers w1).nbrs).foldl (decideOne w.nbrs) (removePeers w1)).ribs = none
+    rw [show (removePeers w1).nbrs = toDict c.nbrs from rfl, hf2]
+    simp only [removePeers]
+    rw [lookup_filter_key (fun k => !((AList.keys w1.peers).filter (fun k => (AList.lookup k w1.nbrs).isNone)).contains k)]
+    have hc : ((AList.keys w1.peers).filter (fun k => (AList.lookup k w1.nbrs).isNone)).contains a = true := by
+      apply List.contains_iff_mem.2
+      apply List.mem_filter.2
+      refine ⟨hin, ?_⟩
+      have : AList.lookup a w1.nbrs = none := hnl
+      simp [this]
+    rw [hc]; rfl
+  · show AList.lookup a ((AList.values (removePeers w1).nbrs).foldl (decideOne w.nbrs) (removePeers w1)).nbrs = none
+    rw [(decideFold_fields _ _ _).1]
+    exact hnl
 
 /-! ### re-committing a section that is already live changes nothing -/
 
